@@ -173,6 +173,10 @@ func NewStore(r *rt.Rand, family string) *Store {
 			ps = append(ps, Pair{K: numKey(r), V: vals[r.Intn(len(vals))]})
 		}
 	}
+	if len(ps) > 0 && family != FWide && r.Chance(1, 8) {
+		// a pair stored under the empty key: a key like any other, the smallest one
+		ps = append(ps, Pair{K: "", V: ps[r.Intn(len(ps))].V})
+	}
 	return &Store{Family: family, Pairs: dedupSort(ps)}
 }
 
